@@ -240,7 +240,11 @@ class Component( ComponentLevel7 ):
       parent._dsl.upblk_reads[blk].add( eval(obj_name) )
 
     for blk, obj_name in provided_upblk_writes:
-      parent._dsl.upblk_writes[blk].add( eval(obj_name) )
+      written = eval(obj_name)
+      parent._dsl.upblk_writes[blk].add( written )
+      # the old signal was marked when the update_ff block was elaborated
+      if blk in parent._dsl.update_ff:
+        written._dsl.needs_double_buffer = True
 
     for blk, obj_name in provided_upblk_calls:
       parent._dsl.upblk_calls[blk].add( eval(obj_name) )
